@@ -23,6 +23,7 @@ import (
 	"net/http"
 	"os"
 	"sort"
+	"strconv"
 	"strings"
 	"sync"
 	"sync/atomic"
@@ -194,6 +195,54 @@ func c15Handler(ep string, idx int, m c15Mode) http.HandlerFunc {
 	}
 }
 
+// fixed, 2h-aligned window of the direct range calls: cache keys do not depend on the wall clock, so a second
+// identical call is identical for the cache too; 1h = one slice, 6h = exactly three slices
+const c15T0 = 1700006400 // divisible by 7200
+const c15Slices = 3
+
+type c15AbsRange struct {
+	start, end time.Time
+	step       time.Duration
+}
+
+func (r c15AbsRange) Start() time.Time    { return r.start }
+func (r c15AbsRange) End() time.Time      { return r.end }
+func (r c15AbsRange) Dur() time.Duration  { return r.end.Sub(r.start) }
+func (r c15AbsRange) Step() time.Duration { return r.step }
+func (r c15AbsRange) String() string      { return fmt.Sprintf("abs/%d/%s", r.start.Unix(), r.end.Sub(r.start)) }
+
+func c15Range(multi bool) c15AbsRange {
+	d := time.Hour
+	if multi {
+		d = c15Slices * 2 * time.Hour
+	}
+	return c15AbsRange{start: time.Unix(c15T0, 0), end: time.Unix(c15T0, 0).Add(d), step: time.Minute}
+}
+
+// c15NewUpstreamSeq: an upstream whose behaviour is m1 until *phase becomes 1 and m2 afterwards (HTTP-level modes only),
+// and whose fault applies to one slice of a range query only when sliceFault >= 0.
+func c15NewUpstreamSeq(ep string, idx int, m1, m2 c15Mode, phase *atomic.Int32, sliceFault int) *fakeUpstream {
+	if m1.Transport != "" || m2.Transport != "" {
+		return c15NewUpstream(ep, idx, m1)
+	}
+	healthy := c15Handler(ep, idx, c15Listed[0])
+	h1, h2 := c15Handler(ep, idx, m1), c15Handler(ep, idx, m2)
+	return newHTTPUpstream(func(w http.ResponseWriter, r *http.Request) {
+		if sliceFault >= 0 {
+			_ = r.ParseForm()
+			if st, err := strconv.ParseFloat(r.Form.Get("start"), 64); err == nil && int(st-c15T0)/7200 != sliceFault {
+				healthy(w, r)
+				return
+			}
+		}
+		if phase.Load() == 0 {
+			h1(w, r)
+		} else {
+			h2(w, r)
+		}
+	})
+}
+
 func c15NewUpstream(ep string, idx int, m c15Mode) *fakeUpstream {
 	switch m.Transport {
 	case "refused":
@@ -225,6 +274,7 @@ type c15Obs struct {
 	ClientB     []int    `json:"client_counts_check"`
 	Panic       string   `json:"panic,omitempty"`
 	Second      *c15Second `json:"second_call,omitempty"` // a second identical call on the same group (client state: cache, unsupported flags)
+	RawServer   []int    `json:"server_counts_raw,omitempty"` // multi-slice: per-upstream request counts before clipping to 0/1
 	Spurious    string   `json:"-"` // a request to an upstream that is not in timeout mode hit the client deadline (overloaded machine)
 }
 
@@ -248,6 +298,12 @@ type c15Case struct {
 	// MultiSlice: range endpoint with a 5h window (3-4 slices fetched concurrently, the others are cancelled when one
 	// fails): per-upstream request counts then depend on the schedule, so they are clipped to 0/1 before comparison.
 	MultiSlice bool    `json:"multi_slice,omitempty"`
+	// SliceFault (multi-slice range only): per upstream, the index of the ONE slice its fault mode applies to (the other
+	// slices of that upstream are answered healthily); -1 / absent = the mode applies to every slice.
+	SliceFault []int `json:"slice_fault,omitempty"`
+	// Modes2: what every upstream does during the SECOND call on the same group (a fault SEQUENCE: an upstream that
+	// recovers or fails between two identical requests); nil = unchanged.  Only HTTP-level modes change.
+	Modes2 []c15Mode `json:"modes_second_call,omitempty"`
 	Binary   *c15BinObs `json:"binary_run,omitempty"`
 }
 
@@ -266,10 +322,17 @@ func c15IndexOf(uris []string, u string) int {
 }
 
 // c15Upstreams starts the fake upstreams of a case (shared by run A and run B).
-func c15Upstreams(ep string, modes []c15Mode) []*fakeUpstream {
-	ups := make([]*fakeUpstream, len(modes))
-	for i, m := range modes {
-		ups[i] = c15NewUpstream(ep, i, m)
+func c15Upstreams(c *c15Case, phase *atomic.Int32) []*fakeUpstream {
+	ups := make([]*fakeUpstream, len(c.Modes))
+	for i, m := range c.Modes {
+		m2, sf := m, -1
+		if c.Modes2 != nil {
+			m2 = c.Modes2[i]
+		}
+		if i < len(c.SliceFault) {
+			sf = c.SliceFault[i]
+		}
+		ups[i] = c15NewUpstreamSeq(c.Endpoint, i, m, m2, phase, sf)
 	}
 	return ups
 }
@@ -335,7 +398,8 @@ func c15ErrKind(err error) string {
 }
 
 // run A: one direct call.
-func c15RunDirect(ep string, modes []c15Mode, required bool, multi bool, shared []*fakeUpstream, obs *c15Obs) {
+func c15RunDirect(c *c15Case, phase *atomic.Int32, shared []*fakeUpstream, obs *c15Obs) {
+	ep, modes, required, multi := c.Endpoint, c.Modes, c.Required, c.MultiSlice
 	fg, ups, cts, uris, cleanup := c15BuildGroup(ep, modes, required, shared)
 	defer cleanup()
 	ctx := context.Background()
@@ -354,11 +418,7 @@ func c15RunDirect(ep string, modes []c15Mode, required bool, multi bool, shared 
 			}
 		case "range":
 			var rr *promapi.RangeQueryResult
-			lookback := time.Hour
-			if multi {
-				lookback = 5 * time.Hour
-			}
-			rr, err = fg.RangeQuery(ctx, "up", promapi.NewRelativeRange(lookback, time.Minute))
+			rr, err = fg.RangeQuery(ctx, "up", c15Range(multi))
 			if err == nil && rr != nil {
 				answerIdx = c15IndexOf(uris, rr.URI)
 				seen := map[string]bool{}
@@ -411,6 +471,7 @@ func c15RunDirect(ep string, modes []c15Mode, required bool, multi bool, shared 
 		}
 	}
 	obs.Client = c15Counts(cts)
+	rawClient := append([]int{}, obs.Client...)
 	obs.Server = make([]int, len(ups))
 	for i, u := range ups {
 		// refused: nothing reaches a handler; reset: net/http may transparently re-dial when the RST arrives before
@@ -421,9 +482,10 @@ func c15RunDirect(ep string, modes []c15Mode, required bool, multi bool, shared 
 			obs.Server[i] = int(u.hits.Load())
 		}
 	}
-	// second identical call on the same group, unless it would wait for timeouts again.
-	// (the range query is skipped too: its cache key contains the wall-clock second/minute of the call)
+	// second identical call on the same group, unless it would wait for timeouts again
+	// (range queries use a fixed absolute window, so their cache keys are the same in both calls)
 	if multi {
+		obs.RawServer = append([]int{}, obs.Server...)
 		clip := func(xs []int) {
 			for i := range xs {
 				if xs[i] > 1 {
@@ -434,13 +496,14 @@ func c15RunDirect(ep string, modes []c15Mode, required bool, multi bool, shared 
 		clip(obs.Client)
 		clip(obs.Server)
 	}
-	second := ep != "range"
+	second := true
 	for _, m := range modes {
 		if m.Transport == "timeout" {
 			second = false
 		}
 	}
 	if second {
+		phase.Store(1)
 		err2, idx2, marker2 := call()
 		sc := &c15Second{OK: err2 == nil, AnswerIdx: idx2, Marker: marker2, ErrIdx: -1, ErrKind: c15ErrKind(err2)}
 		var fe *promapi.FailoverGroupError
@@ -449,7 +512,11 @@ func c15RunDirect(ep string, modes []c15Mode, required bool, multi bool, shared 
 		}
 		after := c15Counts(cts)
 		for i := range after {
-			sc.Client = append(sc.Client, after[i]-obs.Client[i])
+			d := after[i] - rawClient[i]
+			if multi && d > 1 {
+				d = 1
+			}
+			sc.Client = append(sc.Client, d)
 		}
 		obs.Second = sc
 	}
@@ -539,9 +606,13 @@ func c15Run(c *c15Case) {
 	// an observation polluted by a spurious client timeout (machine overloaded) is discarded and taken again
 	for attempt := 0; attempt < 4; attempt++ {
 		c.Obs = c15Obs{}
-		ups := c15Upstreams(c.Endpoint, c.Modes)
-		c15RunDirect(c.Endpoint, c.Modes, c.Required, c.MultiSlice, ups, &c.Obs) // server-side counts are read here, before run B
-		c15RunCheck(c.Endpoint, c.Modes, c.Required, ups, &c.Obs)
+		var phase atomic.Int32
+		ups := c15Upstreams(c, &phase)
+		c15RunDirect(c, &phase, ups, &c.Obs) // server-side counts are read here, before run B
+		phase.Store(0)
+		if c.SliceFault == nil { // the checks use their own (relative) windows: a per-slice fault has no meaning for them
+			c15RunCheck(c.Endpoint, c.Modes, c.Required, ups, &c.Obs)
+		}
 		for _, u := range ups {
 			u.Close()
 		}
@@ -741,16 +812,8 @@ func c15Oracle(c *c15Case) []string {
 		if len(unable) > 0 {
 			bad = append(bad, fmt.Sprintf("request was answered by upstream %d but the online check reported %v", first, o.Problems))
 		}
-		// the same request asked again must still be upstream `first`'s own answer (now possibly from the cache)
-		if sc := o.Second; sc != nil {
-			if !sc.OK || sc.AnswerIdx != first || sc.Marker != c15Marker(first) {
-				bad = append(bad, fmt.Sprintf("second identical call: expected the unchanged answer of upstream %d again, got ok=%v answer_idx=%d marker=%q kind=%s", first, sc.OK, sc.AnswerIdx, sc.Marker, sc.ErrKind))
-			}
-			for i := first + 1; i < n && i < len(sc.Client); i++ {
-				if sc.Client[i] != 0 {
-					bad = append(bad, fmt.Sprintf("second identical call: upstream %d (%s) contacted although upstream %d answers", i, c.Modes[i].Name, first))
-				}
-			}
+		if c.MultiSlice && first < len(o.RawServer) && o.RawServer[first] >= 0 && o.RawServer[first] != c15Slices {
+			bad = append(bad, fmt.Sprintf("range query over %d slices: the answering upstream %d received %d request(s)", c15Slices, first, o.RawServer[first]))
 		}
 	case first < n: // query error: returned as is, from that upstream
 		if o.OK || o.ErrIdx != first {
@@ -777,12 +840,93 @@ func c15Oracle(c *c15Case) []string {
 			if c.Required {
 				want = "Bug"
 			}
-			if len(o.Problems) != 1 || len(unable) != 1 || unable[0] != want {
+			if c.SliceFault == nil && (len(o.Problems) != 1 || len(unable) != 1 || unable[0] != want) {
 				bad = append(bad, fmt.Sprintf("every upstream is unavailable (required=%v): expected exactly one `unable to run checks` problem of severity %s, got %v", c.Required, want, o.Problems))
 			}
 			if !o.Unavailable {
 				bad = append(bad, "every upstream is unavailable but the returned error is not classified unavailable: "+o.ErrKind)
 			}
+		}
+	}
+	return append(bad, c15OracleSecond(c, first)...)
+}
+
+// c15OracleSecond: the property on the SECOND call of a fault sequence (modes may have changed in between).
+// A1 = upstream that answered the first call (its answer may legitimately be served from the cache, whatever it does
+// now); otherwise the request must again be answered by the first upstream in configured order that is reachable NOW:
+// an upstream that failed before and recovered must be asked again (errors leave no trace), an upstream that answered a
+// DIFFERENT upstream's request must not be used in its place, later upstreams are not contacted.
+func c15OracleSecond(c *c15Case, first int) []string {
+	sc := c.Obs.Second
+	if sc == nil {
+		return nil
+	}
+	n := len(c.Modes)
+	modes2 := c.Modes2
+	if modes2 == nil {
+		modes2 = c.Modes
+	}
+	for _, m := range modes2 {
+		if !m.Listed {
+			return nil
+		}
+	}
+	a1 := -1
+	if first < n && c15Expect(c.Endpoint, c.Modes[first]) == "answer" {
+		a1 = first
+	}
+	// a status API that answered 404 is remembered as unsupported by design: not judged
+	if c15ConfigLike(c.Endpoint) {
+		for i := 0; i <= first && i < n; i++ {
+			if c.Modes[i].Class == "not_found" {
+				return nil
+			}
+		}
+	}
+	exp := n
+	for i, m := range modes2 {
+		if i == a1 || c15Expect(c.Endpoint, m) != "next" {
+			exp = i
+			break
+		}
+	}
+	if exp == a1 && c15Expect(c.Endpoint, modes2[a1]) != "answer" {
+		return nil // the cached answer of an upstream that went down afterwards: the property does not say
+	}
+	var bad []string
+	names := func(ms []c15Mode) []string {
+		out := make([]string, len(ms))
+		for i, m := range ms {
+			out[i] = m.Name
+		}
+		return out
+	}
+	pre := fmt.Sprintf("second call (modes now %v)", names(modes2))
+	for i := 0; i < n && i < len(sc.Client); i++ {
+		switch {
+		case i > exp && sc.Client[i] != 0:
+			bad = append(bad, fmt.Sprintf("%s: upstream %d (%s) contacted although upstream %d answers/fails the query", pre, i, modes2[i].Name, exp))
+		case i < exp && sc.Client[i] != 1:
+			bad = append(bad, fmt.Sprintf("%s: upstream %d (%s) contacted %d time(s), the property requires 1 (an earlier failure must not be remembered)", pre, i, modes2[i].Name, sc.Client[i]))
+		case i == exp && i != a1 && sc.Client[i] != 1:
+			bad = append(bad, fmt.Sprintf("%s: upstream %d (%s) contacted %d time(s), the property requires 1", pre, i, modes2[i].Name, sc.Client[i]))
+		}
+	}
+	switch {
+	case exp < n && (exp == a1 || c15Expect(c.Endpoint, modes2[exp]) == "answer"):
+		if !sc.OK || sc.AnswerIdx != exp || sc.Marker != c15Marker(exp) {
+			bad = append(bad, fmt.Sprintf("%s: expected the unchanged answer of upstream %d (first reachable), got ok=%v answer_idx=%d marker=%q kind=%s", pre, exp, sc.OK, sc.AnswerIdx, sc.Marker, sc.ErrKind))
+		}
+	case exp < n:
+		if sc.OK || sc.ErrIdx != exp {
+			bad = append(bad, fmt.Sprintf("%s: expected the error of upstream %d (%s) returned as is, got ok=%v err_idx=%d kind=%s", pre, exp, modes2[exp].Name, sc.OK, sc.ErrIdx, sc.ErrKind))
+		}
+		if want := modes2[exp].ErrType; want != "" && !sc.OK && sc.ErrKind != "api:"+want {
+			bad = append(bad, fmt.Sprintf("%s: query error %s came back as %s, not as is", pre, want, sc.ErrKind))
+		}
+	default:
+		if sc.OK {
+			bad = append(bad, pre+": no upstream is reachable but the request succeeded")
 		}
 	}
 	return bad
@@ -838,10 +982,14 @@ func c15CoqCase(c *c15Case) string {
 		ups[i] = fmt.Sprintf("(mk_upstream %s %s false None)", c15CoqResponse(c.Endpoint, m), coqStr(c15Marker(i)))
 	}
 	o := c.Obs
-	return fmt.Sprintf("{| c_id := %s; c_ep := %s; c_required := %s; c_ups := %s; "+
+	var r2 []string
+	for _, m := range c.Modes2 {
+		r2 = append(r2, c15CoqResponse(c.Endpoint, m))
+	}
+	return fmt.Sprintf("{| c_id := %s; c_ep := %s; c_required := %s; c_ups := %s; c_resps2 := %s; c_check_run := %s; "+
 		"o_ok := %s; o_answer_idx := %s; o_marker := %s; o_err_idx := %s; o_err_kind := %s; o_unavailable := %s; o_strict := %s; "+
 		"o_client := %s; o_server := %s; o_problems := %s; o_client_check := %s; o_second := %s |}",
-		coqN(c.ID), c15CoqEndpoint(c.Endpoint), coqBool(c.Required), coqList(ups),
+		coqN(c.ID), c15CoqEndpoint(c.Endpoint), coqBool(c.Required), coqList(ups), coqList(r2), coqBool(c.SliceFault == nil),
 		coqBool(o.OK), coqZ(int64(o.AnswerIdx)), coqStr(o.Marker), coqZ(int64(o.ErrIdx)), coqStr(o.ErrKind), coqBool(o.Unavailable), coqBool(o.Strict),
 		c15CoqInts(o.Client), c15CoqInts(o.Server), coqStrList(o.Problems), c15CoqInts(o.ClientB), c15CoqSecond(o.Second))
 }
@@ -857,6 +1005,9 @@ func c15CoqSecond(s *c15Second) string {
 // case generation
 
 func c15Enumerate(tier string, r *rand.Rand, nExtra int) []c15Case {
+	if tier == "search" {
+		return c15SearchCases(r, nExtra)
+	}
 	var cases []c15Case
 	add := func(ep string, req bool, ms ...c15Mode) {
 		judged := true
@@ -940,6 +1091,59 @@ func c15Enumerate(tier string, r *rand.Rand, nExtra int) []c15Case {
 			}
 		}
 	}
+	// multi-slice range queries in which the fault hits ONE slice of an upstream (first, middle, last): the whole
+	// request must fail over (or stop) exactly as if the upstream had failed entirely, and the answer must be entirely
+	// the answering upstream's (no slices of the half-working upstream mixed in)
+	for ai, a := range L {
+		if a.Transport != "" || a.Name == "healthy" {
+			continue
+		}
+		for sf := 0; sf < c15Slices; sf++ {
+			mk := func(sfs []int, ms ...c15Mode) {
+				add("range", req(), ms...)
+				cases[len(cases)-1].MultiSlice = true
+				cases[len(cases)-1].SliceFault = sfs
+			}
+			mk([]int{sf}, a)
+			mk([]int{sf, -1}, a, L[0])
+			mk([]int{-1, sf, -1}, L[1], a, L[0])
+			if tier == "thorough" || (ai+sf)%2 == 0 {
+				mk([]int{-1, sf}, L[0], a)
+				mk([]int{sf, (sf + 1) % c15Slices, -1}, a, L[3], L[0])
+				mk([]int{sf, -1}, a, L[5])
+			}
+		}
+	}
+	// fault SEQUENCES: two identical calls on the same group, an upstream changing its (HTTP-level) behaviour in between
+	var H []c15Mode
+	for _, m := range L {
+		if m.Transport == "" {
+			H = append(H, m)
+		}
+	}
+	for ei, ep := range c15Endpoints {
+		for ai, a := range H {
+			for bi, b := range H {
+				if ai == bi {
+					continue
+				}
+				seq := func(m1, m2 []c15Mode) {
+					add(ep, req(), m1...)
+					cases[len(cases)-1].Modes2 = append([]c15Mode{}, m2...)
+				}
+				seq([]c15Mode{a, L[0]}, []c15Mode{b, L[0]})
+				if tier == "thorough" || (ai+bi+ei)%2 == 0 {
+					seq([]c15Mode{L[3], a}, []c15Mode{L[3], b})
+					seq([]c15Mode{L[1], a, L[0]}, []c15Mode{L[1], b, L[0]})
+				}
+				if tier == "thorough" || (ai*3+bi+ei)%5 == 0 {
+					seq([]c15Mode{a, b}, []c15Mode{b, a})
+					seq([]c15Mode{a, L[0], L[0]}, []c15Mode{b, L[4], L[0]})
+					seq([]c15Mode{a}, []c15Mode{b})
+				}
+			}
+		}
+	}
 	all := append(append([]c15Mode{}, L...), c15Extra...)
 	for i := 0; i < nExtra; i++ {
 		k := 1 + r.Intn(3)
@@ -948,9 +1152,73 @@ func c15Enumerate(tier string, r *rand.Rand, nExtra int) []c15Case {
 			ms[j] = all[r.Intn(len(all))]
 		}
 		add(c15Endpoints[r.Intn(5)], r.Intn(2) == 0, ms...)
+		if r.Intn(3) == 0 {
+			m2 := make([]c15Mode, k)
+			for j := range m2 {
+				m2[j] = ms[j]
+				if ms[j].Transport == "" && r.Intn(2) == 0 {
+					for {
+						m2[j] = all[r.Intn(len(all))]
+						if m2[j].Transport == "" {
+							break
+						}
+					}
+				}
+			}
+			cases[len(cases)-1].Modes2 = m2
+		}
 	}
 	for i := range cases {
 		cases[i].ID = i
+	}
+	return cases
+}
+
+// c15SearchCases (search mode: an obligation is already broken and a failing INPUT is wanted): random assignments of the
+// LISTED modes only (every case is judged by the property oracle), no timeouts beyond one per case, a third of them as
+// fault sequences; nothing is written for the model.
+func c15SearchCases(r *rand.Rand, n int) []c15Case {
+	var cases []c15Case
+	L := c15Listed
+	for i := 0; i < n; i++ {
+		k := 1 + r.Intn(3)
+		ms := make([]c15Mode, k)
+		timeouts := 0
+		for j := range ms {
+			for {
+				ms[j] = L[r.Intn(len(L))]
+				if ms[j].Transport != "timeout" || timeouts == 0 {
+					break
+				}
+			}
+			if ms[j].Transport == "timeout" {
+				timeouts++
+			}
+		}
+		c := c15Case{ID: i, Endpoint: c15Endpoints[r.Intn(5)], Required: r.Intn(2) == 0, Modes: ms, Judged: true}
+		if r.Intn(3) == 0 {
+			m2 := append([]c15Mode{}, ms...)
+			for j := range m2 {
+				if m2[j].Transport == "" && r.Intn(2) == 0 {
+					for {
+						m2[j] = L[r.Intn(len(L))]
+						if m2[j].Transport == "" {
+							break
+						}
+					}
+				}
+			}
+			c.Modes2 = m2
+		} else if c.Endpoint == "range" && timeouts == 0 && r.Intn(2) == 0 {
+			c.MultiSlice = true
+			if r.Intn(2) == 0 {
+				c.SliceFault = make([]int, k)
+				for j := range c.SliceFault {
+					c.SliceFault[j] = r.Intn(c15Slices+1) - 1
+				}
+			}
+		}
+		cases = append(cases, c)
 	}
 	return cases
 }
@@ -992,7 +1260,7 @@ func runC15(args []string) int {
 	if os.Getenv("PINT_BIN") != "" && nBin > 0 {
 		var cand []int
 		for i := range cases {
-			if cases[i].Judged && !cases[i].MultiSlice {
+			if cases[i].Judged && !cases[i].MultiSlice && cases[i].Modes2 == nil {
 				cand = append(cand, i)
 			}
 		}
@@ -1124,6 +1392,9 @@ func runC15(args []string) int {
 	rep.Notes = append(rep.Notes, fmt.Sprintf("ran %d cases in %.1fs with %d workers; %d re-runs of oracle-failing cases (confirmed=%v, oracle-failing but not re-run and not reported: %d); %d observations discarded because a non-timeout upstream hit the client deadline", len(cases), time.Since(t0).Seconds(), workers, retried, confirmed, notRerun, c15SpuriousRuns.Load()))
 
 	cw := newCaseWriter(cwd, "Run.C15", 400)
+	if tier == "search" {
+		cw = nil
+	}
 	keep := len(cases) <= 1500
 	for i := range cases {
 		c := &cases[i]
@@ -1137,6 +1408,20 @@ func runC15(args []string) int {
 			rep.hist(fmt.Sprintf("mode@%d:%s", j, m.Name))
 		}
 		key := fmt.Sprintf("%s/%v/%v/%s", c.Endpoint, c.Required, c.MultiSlice, strings.Join(names, ","))
+		if c.Modes2 != nil {
+			key += "=>"
+			for _, m := range c.Modes2 {
+				key += m.Name + ","
+			}
+			rep.hist("fault_sequence(second call with changed modes)")
+		}
+		if c.SliceFault != nil {
+			key += fmt.Sprint("@", c.SliceFault)
+			rep.hist("range_fault_on_one_slice")
+		}
+		if c.Obs.Second != nil {
+			rep.hist("second_call_observed")
+		}
 		rep.count(key, contactedFaulty)
 		rep.hist("endpoint:" + c.Endpoint)
 		rep.hist(fmt.Sprintf("upstreams:%d", len(c.Modes)))
@@ -1156,7 +1441,9 @@ func runC15(args []string) int {
 		default:
 			rep.hist("outcome:error_" + c.Obs.ErrKind)
 		}
-		cw.add(c15CoqCase(c))
+		if cw != nil {
+			cw.add(c15CoqCase(c))
+		}
 		if keep || !c.Judged || c.Binary != nil {
 			rep.Cases[fmt.Sprint(c.ID)] = c
 		}
@@ -1178,8 +1465,10 @@ func runC15(args []string) int {
 			}
 		}
 	}
-	cw.flush()
-	rep.CaseFiles = cw.files
+	if cw != nil {
+		cw.flush()
+		rep.CaseFiles = cw.files
+	}
 	rep.write("report.json")
 	fmt.Printf("C15: %d cases, %d oracle failures, %.1fs\n", len(cases), len(rep.OracleFails), time.Since(t0).Seconds())
 	return 0
